@@ -186,12 +186,8 @@ def run_falsifier(ctx, check_types):
             # the nested layout with a child used by two nested classes of one root: the child is hoisted into the root and
             # referred to by an absolute 'Root.Child' path, under root names the generator has to convert
             from .. import gen as _gen
-            name = rng.choice(_gen.ROOT_NAMES + ["Route-2", "2fast", "Données", "my root"])
-            pt = lambda j: {"x": j, "y": j + .5}
-            inputs = [(name, [{"left": {"point": pt(1), "a": 1}, "right": {"point": pt(2), "b": "x"},
-                               "deep": {"inner": {"point": pt(3), "c": [1]}, "d": 1.5}}])]
-            if rng.random() < 0.4:
-                inputs.append((name, [{"left": {"point": pt(4), "a": 2}, "right": {"point": pt(5), "b": "y"}, "deep": {"inner": {"point": pt(6), "c": []}, "d": 2}}]))
+            name, docs = _gen.gen_shared_under_root(rng)
+            inputs = [(name, docs)]
             cmps = [ModelFieldsEquals()]
             job.update({"layout": "nested", "sharedOk": True})
             job.pop("renderFirst", None)
